@@ -2,7 +2,7 @@
 import logging
 import re
 from pathlib import Path
-from typing import List, Tuple, Set
+from typing import Dict, List, Optional, Tuple, Set
 
 from pddl_plus_parser.models import (
     Domain,
@@ -10,6 +10,7 @@ from pddl_plus_parser.models import (
     Operator,
     JointActionCall,
     NOP_ACTION,
+    PDDLObject,
     Problem,
     State,
     GroundedPredicate,
@@ -201,6 +202,7 @@ class PlanConverter:
         next_executing_agent: str,
         agent_names: List[str],
         should_validate_concurrency_constraint: bool = True,
+        problem_objects: Optional[Dict[str, PDDLObject]] = None,
     ) -> bool:
         """Validates if the joint action is well-defined.
 
@@ -220,6 +222,7 @@ class PlanConverter:
         :param next_executing_agent: the agent that executes the new action.
         :param agent_names: the names of the agents.
         :param should_validate_concurrency_constraint: whether to validate the concurrency constraint.
+        :param problem_objects: the objects of the problem, needed to evaluate universally quantified preconditions.
         :return: whether the joint action with the new action is well-defined.
         """
         self.logger.info(
@@ -249,6 +252,7 @@ class PlanConverter:
             self.ma_domain.actions[next_action.name],
             self.ma_domain,
             next_action.parameters,
+            problem_objects=problem_objects,
         )
         next_action_op.ground()
         if not next_action_op.is_applicable(current_state):
@@ -297,6 +301,7 @@ class PlanConverter:
                 next_executing_agent,
                 agent_names,
                 should_validate_concurrency_constraint,
+                problem_objects=problem.objects,
             ):
                 joint_action[
                     agent_names.index(next_executing_agent)
